@@ -25,7 +25,7 @@ func init() {
 			"oracle: reference model of NotInAudience / OneTimeUse / ProxyRestriction; distinct = shape hash (restriction pattern, configured URI kind, OTU, proxy, n, placement, perturbation, outcome)",
 		Directed:    c06Directed,
 		Run:         c06Run,
-		MustHit:     []string{"restrictions=0", "restrictions>=2", "empty_restriction", "near_miss", "match_then_miss", "miss_then_match", "otu", "proxy", "configured_empty", "forwarded_other_sp", "duplicate", "recompress", "clock_before_not_before", "clock_after_conditions_end", "long_audience_list", "proxy_count_beyond_64_bits"},
+		MustHit:     []string{"restrictions=0", "restrictions>=2", "empty_restriction", "near_miss", "match_then_miss", "miss_then_match", "otu", "proxy", "configured_empty", "forwarded_other_sp", "duplicate", "recompress", "clock_before_not_before", "clock_after_conditions_end", "long_audience_list", "proxy_count_beyond_64_bits", "proxy_count_namesake_attribute"},
 		RandomRuns:  map[string]int{"quick": 8000, "thorough": 80000},
 		Assumptions: []string{"comparison of audience values is byte-exact, as the property states"},
 	})
@@ -180,6 +180,7 @@ func c06Run(r *core.Run) {
 		r.Probe("otu")
 	}
 	countUnrepresentable := false
+	namesake := false
 	if proxy {
 		p := &world.LProxy{}
 		switch ci := t.Int(10, "c06.proxy.count"); ci {
@@ -202,6 +203,12 @@ func c06Run(r *core.Run) {
 		}
 		a0.Proxy = p
 		r.Probe("proxy")
+		if t.Int(5, "c06.proxy.namesake") == 1 {
+			// an XML Schema instance attribute spelled like the SAML one: it is not the Count
+			a0.ExtraAttrs = map[string][][2]string{"ProxyRestriction": {{"xsi:Count", "7"}}}
+			namesake = true
+			r.Probe("proxy_count_namesake_attribute")
+		}
 	}
 	if n > 1 {
 		// the second assertion's conditions must not matter
@@ -214,6 +221,9 @@ func c06Run(r *core.Run) {
 	}
 	s.ApplyPlacement(m, place, t.Chance(800, "c06.plainsig"))
 	lay := world.DrawLayout(t)
+	if namesake {
+		lay.Extras = false // (one foreign namespace per message: see C05)
+	}
 	xml, err := s.IdP.Issue(m, lay, r.Sim.Now())
 	if err != nil {
 		r.HarnessError("issue: %v", err)
